@@ -103,6 +103,42 @@ pub fn check_input_sized(a: &mut Allocator, s: &[u8], acc: &mut Acc, full_hash: 
             _ => acc.violation(canon(), format!("parse_triples acceptance depends on how reads are split: whole {:?}, 1-byte reads {:?}", r2.as_ref().map(|_| p2).map_err(|e| e.to_string()), r2c.as_ref().map(|_| cr.pos).map_err(|e| e.to_string()))),
         }
     }
+    // 2d. start from a non-initial state: the same object behind 3 foreign bytes, cursor positioned at 3 (the
+    //     second object of a stream): outcome and consumption must equal the run from position 0
+    if s.len() <= 4096 {
+        let mut shifted = vec![0x84u8, 0xff, 0x01];
+        shifted.extend_from_slice(s);
+        let mut d1 = Cursor::new(&shifted[..]);
+        d1.set_position(3);
+        let q1 = node_from_stream(a, &mut d1);
+        let mut d2 = Cursor::new(&shifted[..]);
+        d2.set_position(3);
+        let q2 = parse_triples(&mut d2, true);
+        let mut d3 = Cursor::new(&shifted[..]);
+        d3.set_position(3);
+        let q3 = tree_hash_from_stream(&mut d3);
+        let same1 = match (&r1, &q1) {
+            (Ok(x), Ok(y)) => tree::read_ser(a, *x) == tree::read_ser(a, *y) && d1.position() == p1 + 3,
+            (Err(_), Err(_)) => true,
+            _ => false,
+        };
+        let same2 = match (&r2, &q2) {
+            (Ok(x), Ok(y)) => x == y && d2.position() == p2 + 3,
+            (Err(_), Err(_)) => true,
+            _ => false,
+        };
+        let mut c3 = Cursor::new(s);
+        let r3 = tree_hash_from_stream(&mut c3);
+        let same3 = match (&r3, &q3) {
+            (Ok(x), Ok(y)) => x == y && d3.position() == c3.position() + 3,
+            (Err(_), Err(_)) => true,
+            _ => false,
+        };
+        if !(same1 && same2 && same3) {
+            acc.violation(canon(), format!("decoding the same object from cursor position 3 differs from position 0 (node_from_stream same={same1}, parse_triples same={same2}, tree_hash_from_stream same={same3})"));
+        }
+        acc.inc("offset_cursor_cases");
+    }
     // 3. tree_hash_from_stream
     let mut c3 = Cursor::new(s);
     let r3 = tree_hash_from_stream(&mut c3);
@@ -338,7 +374,7 @@ pub fn run(ctx: &Ctx) -> Report {
     rep.states = rep.evaluations;
     rep.transitions = rep.evaluations * 4;
     rep.traces = rep.evaluations;
-    rep.rule = format!("every byte string of BYTES(3), BYTES({n}, Sigma-classic={}), {}every truncation and one-byte corruption (over {} replacement bytes) of every TREES(4,A6) serialization, and declared-size probes; each run through node_from_stream, parse_triples(hashes), tree_hash_from_stream and is_canonical_serialization and compared with an independent classic decoder (accept/reject, bytes consumed, tree, triple structure, hash, canonicity); per-input heap requests bounded by 64KiB+256*len (64KiB+8*len for the large prefix-class inputs) via a counting allocator. Non-trivial = inputs accepted (a tree was decoded and compared).",
+    rep.rule = format!("every byte string of BYTES(3), BYTES({n}, Sigma-classic={}), {}every truncation and one-byte corruption (over {} replacement bytes) of every TREES(4,A6) serialization, and declared-size probes; each run through node_from_stream, parse_triples (with/without hashes, through a 1-byte-per-read reader, and all three stream decoders again from cursor position 3 behind foreign bytes), tree_hash_from_stream and is_canonical_serialization and compared with an independent classic decoder (accept/reject, bytes consumed, tree, triple structure, hash, canonicity); per-input heap requests bounded by 64KiB+256*len (64KiB+8*len for the large prefix-class inputs) via a counting allocator. Non-trivial = inputs accepted (a tree was decoded and compared).",
         hx(&SIGMA_CLASSIC), if ctx.quick() { "" } else { "BYTES(4, 64-byte alphabet), " }, corrupt.len());
     rep.assumptions.push("reference decoder tree::deser (accepts length prefixes of up to 6 bytes with value < 2^34, like the documented format)".into());
     rep.assumptions.push("tree hashes compared against the independent SHA-256 for every 16th input (all three implementations are compared with each other on every input)".into());
